@@ -319,6 +319,13 @@ type vc06Inst struct {
 	poisoned bool
 	env      *vc06Env
 	subs     []vc06Sub
+	// keyRes, when set, replaces the stub key resolver: the keys part wires the real SourceTXKeyResolver over a real DID store
+	keyRes resolver.NutsKeyResolver
+	// lazy (keys part: thousands of refused offers per state on one instance): the dump taken after the previous offer is the
+	// "before" of the next one, and after a REFUSED offer the comparison is the byte-level dump and the subscriber log only (the
+	// model did not move; the whole lock-step comparison runs again after the next admission)
+	lazy     bool
+	lastDump string
 }
 
 type vc06Problem struct {
@@ -339,6 +346,11 @@ func vc06TypeFilter(types []string) NotificationFilter {
 
 // vc06NewInst builds a fresh real state on a fresh bbolt file. wrap (optional) interposes a KV wrapper.
 func vc06NewInst(env *vc06Env, subs []vc06Sub, wrap func(stoabs.KVStore) stoabs.KVStore) *vc06Inst {
+	return vc06NewInstRes(env, subs, wrap, nil)
+}
+
+// vc06NewInstRes is vc06NewInst with the key resolver the signature verifier is given (nil: the stub table of env).
+func vc06NewInstRes(env *vc06Env, subs []vc06Sub, wrap func(stoabs.KVStore) stoabs.KVStore, keyRes resolver.NutsKeyResolver) *vc06Inst {
 	dir, err := os.MkdirTemp("", "vc06-")
 	if err != nil {
 		panic(err)
@@ -351,7 +363,7 @@ func vc06NewInst(env *vc06Env, subs []vc06Sub, wrap func(stoabs.KVStore) stoabs.
 	if wrap != nil {
 		in.db = wrap(raw)
 	}
-	in.env, in.subs = env, subs
+	in.env, in.subs, in.keyRes = env, subs, keyRes
 	in.openState()
 	in.model = vc06NewModel(env, subs)
 	return in
@@ -359,7 +371,11 @@ func vc06NewInst(env *vc06Env, subs []vc06Sub, wrap func(stoabs.KVStore) stoabs.
 
 // openState creates a dag.State on the store (again: a restart is a new State on the same file) and registers the subscribers.
 func (in *vc06Inst) openState() {
-	s, err := NewState(in.db, NewPrevTransactionsVerifier(), NewTransactionSignatureVerifier(vc06Resolver{in.env}))
+	var keyRes resolver.NutsKeyResolver = vc06Resolver{in.env}
+	if in.keyRes != nil {
+		keyRes = in.keyRes
+	}
+	s, err := NewState(in.db, NewPrevTransactionsVerifier(), NewTransactionSignatureVerifier(keyRes))
 	if err != nil {
 		panic(err)
 	}
@@ -435,7 +451,8 @@ type vc06Out struct {
 func (in *vc06Inst) offer(b []byte, payload []byte, hasPayload bool, full bool) (out vc06Out) {
 	ctx := context.Background()
 	var before string
-	if full {
+	before, in.lastDump = in.lastDump, ""
+	if full && (!in.lazy || before == "") {
 		before = in.dump()
 	}
 	if !hasPayload {
@@ -522,17 +539,32 @@ func (in *vc06Inst) offer(b []byte, payload []byte, hasPayload bool, full bool) 
 		in.logSeen, in.modSeen = len(in.log), len(in.model.notified)
 		return
 	}
-	for _, p := range in.compare() {
-		problem(p.Sig, p.What)
-	}
-	if !out.Admitted {
-		if after := in.dump(); after != before {
-			cls := "rejected"
-			if out.WasPresent {
-				cls = "resubmission"
-			}
-			problem(cls+"-changes-storage|"+vc06DiffBuckets(before, after), "the byte-level dump of the store differs after a "+cls+" (buckets: "+vc06DiffBuckets(before, after)+")")
+	if in.lazy && !out.Admitted {
+		in.mu.Lock()
+		n := len(in.log)
+		in.mu.Unlock()
+		if n != in.logSeen {
+			problem("notifications-differ|more-than-expected", fmt.Sprintf("subscribers were called %d time(s) for an offer that was not admitted", n-in.logSeen))
+			in.logSeen = n
 		}
+	} else {
+		for _, p := range in.compare() {
+			problem(p.Sig, p.What)
+		}
+	}
+	after := ""
+	if !out.Admitted || in.lazy {
+		after = in.dump()
+	}
+	if !out.Admitted && after != before {
+		cls := "rejected"
+		if out.WasPresent {
+			cls = "resubmission"
+		}
+		problem(cls+"-changes-storage|"+vc06DiffBuckets(before, after), "the byte-level dump of the store differs after a "+cls+" (buckets: "+vc06DiffBuckets(before, after)+")")
+	}
+	if in.lazy {
+		in.lastDump = after
 	}
 	return
 }
